@@ -307,7 +307,7 @@ JOIN_STEPS = fn("join_steps", "r", attrs="#[verifier::loop_isolation(false)]\n#[
                 requires=["result_vars@.len() == self.depths@.len()", "result_pats@.len() == self.depths@.len()", "self.branch_count == self.depths@.len()",
                           "self.max_step_count >= 1", "self.depths@.len() >= 1"],
                 ensures=["r@ == join_steps_spec(self.config.is_try, self.transpose, !(step_number < self.max_step_count - 1), self.branch_count as int, "
-                         "self.depths@, step_number as int, step_stream@, next_step_stream, "
+                         "self.depths@, step_number as int, step_stream@, opt_tv(next_step_stream), "
                          "let_tuple(seq_toks_sep(filter_active(result_pats@, self.depths@, step_number as int, result_pats@.len() as int), ','), step_results_name.toks()), "
                          "result_vars@, step_results_name.toks(), seq![Tok::Ident(construct_internal_value_name_spec())], "
                          # internal temporaries are taken from the source (R9 quote_idents), so renaming them consistently changes nothing
@@ -356,6 +356,44 @@ JOIN_STEPS = fn("join_steps", "r", attrs="#[verifier::loop_isolation(false)]\n#[
                         "forall|a: (usize, &Ident)| a.0 < %s.len() ==> __f.requires((a,))" % JS_D,
                         "forall|a: (usize, &Ident), r: Option<Ident>| __f.ensures((a,), r) ==> r == (if %s[a.0 as int] > step_number { None::<Ident> } else { Some(*a.1) })" % JS_D]},
                 })
+
+
+GENERATE_STEP_ASSUMED = fn("generate_step", "r", mode="assumed",
+    ensures=["r@ == gen_step_toks(*self, step_number, result_vars@, step_results_name.toks())"],
+    subst=[{"find": "<TVar: ToTokens, TName: ToTokens>", "replace": "", "why": "monomorphised at the only instantiation", "sig": True},
+           {"find": "&[TVar]", "replace": "&[Ident]", "why": "monomorphisation", "sig": True},
+           {"find": "&TName", "replace": "&Ident", "why": "monomorphisation", "sig": True}])
+GS_FI, GS_EV = "qj_JoinOutput_join_steps()[2]", "qj_JoinOutput_join_steps()[0]"
+GENERATE_STEPS = fn("generate_steps", "r", attrs="#[verifier::loop_isolation(false)]\n",
+    requires=["result_vars@.len() == self.depths@.len()", "result_pats@.len() == self.depths@.len()", "self.branch_count == self.depths@.len()",
+              "self.max_step_count >= 1", "self.depths@.len() >= 1"],
+    # C03 / C06 / C15: no unwrap of None (at least one step), and the steps are nested in order
+    ensures=["r@ == steps_toks(*self, result_pats@, result_vars@, %s, %s, 0)" % (GS_FI, GS_EV)],
+    subst=[{"find": "<TPat: ToTokens + Clone, TVar: ToTokens + Clone>", "replace": "", "why": "monomorphised at the only instantiation", "sig": True},
+           {"find": "&[TPat]", "replace": "&[TokenStream]", "why": "monomorphisation", "sig": True},
+           {"find": "&[TVar]", "replace": "&[Ident]", "why": "monomorphisation", "sig": True},
+           {"find": ".into()", "replace": ".into_some()", "why": "Into<Option<TokenStream>> for TokenStream is Some (prelude helper with that contract)"}],
+    closures={
+        "|step_number|": {"params": ["usize"], "ret": "(r: (usize, TokenStream, Ident))",
+                          "ensures": ["r.0 == step_number", "r.1@ == gen_step_toks(*self, step_number, result_vars@, r.2.toks())",
+                                      "r.2.name() =~= construct_step_results_name_spec(step_number)"]},
+        "|next_step_stream, (step_number, step_stream, step_results_name)|": {
+            "id": "G", "params": ["Option<TokenStream>", "(usize, TokenStream, Ident)"], "ret": "(r: Option<TokenStream>)",
+            "ensures": ["r is Some", "r->0@ == join_steps_spec(self.config.is_try, self.transpose, !(__Gp1.0 < self.max_step_count - 1), self.branch_count as int, "
+                        "self.depths@, __Gp1.0 as int, __Gp1.1@, opt_tv(next_step_stream), "
+                        "let_tuple(seq_toks_sep(filter_active(result_pats@, self.depths@, __Gp1.0 as int, result_pats@.len() as int), ','), __Gp1.2.toks()), "
+                        "result_vars@, __Gp1.2.toks(), seq![Tok::Ident(construct_internal_value_name_spec())], %s, %s)" % (GS_FI, GS_EV)]},
+    },
+    iter_loops={"0": {"acc_ty": "Option<TokenStream>", "invariant": [
+        "__lo == 0", "__hi == self.max_step_count", "__i <= __hi",
+        "opt_tv(__acc) == (if __i < self.max_step_count { Some(steps_toks(*self, result_pats@, result_vars@, %s, %s, __i as int)) } else { None::<Seq<Tok>> })" % (GS_FI, GS_EV),
+        "forall|k: usize| __f.requires((k,))",
+        "forall|k: usize, r: (usize, TokenStream, Ident)| __f.ensures((k,), r) ==> (r.0 == k && r.1@ == gen_step_toks(*self, k, result_vars@, r.2.toks()) && r.2.name() =~= construct_step_results_name_spec(k))",
+        "forall|a: Option<TokenStream>, p: (usize, TokenStream, Ident)| __g.requires((a, p))",
+        "forall|a: Option<TokenStream>, p: (usize, TokenStream, Ident), r: Option<TokenStream>| __g.ensures((a, p), r) ==> (r is Some && r->0@ == join_steps_spec(self.config.is_try, self.transpose, !(p.0 < self.max_step_count - 1), self.branch_count as int, "
+        "self.depths@, p.0 as int, p.1@, opt_tv(a), let_tuple(seq_toks_sep(filter_active(result_pats@, self.depths@, p.0 as int, result_pats@.len() as int), ','), p.2.toks()), "
+        "result_vars@, p.2.toks(), seq![Tok::Ident(construct_internal_value_name_spec())], %s, %s))" % (GS_FI, GS_EV),
+    ]}})
 
 
 THREAD_BUILDERS = fn("generate_thread_builders_and_spawn_joiners", "r", attrs="#[verifier::loop_isolation(false)]\n",
@@ -617,7 +655,7 @@ def steps_units():
             u += _assume([un2])
     u.append(table("quote_idents", F_JO, "qj+@Err"))
     u.append(raw("specs_join_steps", _read("specs_join_steps.rs")))
-    u.append(fns(F_JO, [JOIN_STEPS, THREAD_BUILDERS], self_ty="JoinOutput"))
+    u.append(fns(F_JO, [JOIN_STEPS, THREAD_BUILDERS, GENERATE_STEP_ASSUMED, GENERATE_STEPS], self_ty="JoinOutput"))
     # C09 / C16: the tail of generate_step (R15, statements from `let joiner =` to the end): which joiner, over which streams
     u.append({"kind": "lifted", "file": F_JO, "self_ty": "JoinOutput", "func": "generate_step", "stmts_from": "let joiner = ",
               "header": "impl<'a> JoinOutput<'a>",
@@ -883,9 +921,9 @@ OBLIGATIONS = {
             ("core", "InitialExpr::replace_inner_exprs"), ("core", "ActionExpr::replace_inner_exprs"),
             ("core", "ExprGroup::replace_inner_exprs")],
     # the `~` mark (Deferred) reaches the generator unchanged: suffix of parse_until, parse_stream, the wrapper placeholder
-    "C03": [("gen", "JoinOutput::split_branch_steps"), ("gen", "vec_last_push"), ("parse", "parse_until_suffix"), ("parse", "ActionGroup::parse_stream"), ("core", "ActionGroup::to_wrapper_action_expr"),
+    "C03": [("steps", "JoinOutput::generate_steps"), ("gen", "JoinOutput::split_branch_steps"), ("gen", "vec_last_push"), ("parse", "parse_until_suffix"), ("parse", "ActionGroup::parse_stream"), ("core", "ActionGroup::to_wrapper_action_expr"),
             ("core", "ActionGroup::new"), ("core", "ExprGroup::application_type"), ("core", "ExprGroup::new")],
-    "C06": [("steps", "JoinOutput::join_steps"), ("steps", "lemma_join_comma"), ("steps", "lemma_count_take_step"), ("gen", "JoinOutput::split_branch_steps"), ("parse", "parse_until_suffix"), ("parse", "ActionGroup::parse_stream"), ("core", "ActionGroup::to_wrapper_action_expr"),
+    "C06": [("steps", "JoinOutput::generate_steps"), ("steps", "JoinOutput::join_steps"), ("steps", "lemma_join_comma"), ("steps", "lemma_count_take_step"), ("gen", "JoinOutput::split_branch_steps"), ("parse", "parse_until_suffix"), ("parse", "ActionGroup::parse_stream"), ("core", "ActionGroup::to_wrapper_action_expr"),
             ("core", "ActionGroup::new"), ("core", "ExprGroup::application_type"), ("core", "ExprGroup::new")],
     "C04": [("steps", "JoinOutput::join_steps"), ("steps", "lemma_join_comma"), ("steps", "lemma_count_take_step"), ("gen", "JoinOutput::generate_results_transposer"), ("gen", "JoinOutput::active_step_branch_count"), ("gen", "JoinOutput::extract_results_tuple"), ("gen", "lemma_refs_toks"), ("gen", "lemma_filter_tokenizable"),
             ("gen", "JoinOutput::is_branch_active_in_step"), ("gen", "JoinOutput::generate_indexed_step_results_name"),
@@ -896,7 +934,7 @@ OBLIGATIONS = {
     "C05": [("steps", "JoinOutput::join_steps"), ("steps", "lemma_join_comma"), ("steps", "lemma_count_take_step"), ("gen", "JoinOutput::generate_results_transposer"), ("parse", "parse_until_suffix"), ("parse", "ActionGroup::parse_stream"),
             ("core", "ActionGroup::to_wrapper_action_expr"), ("core", "ActionGroup::new"), ("core", "ExprGroup::application_type")],
     "C12": [("steps", "JoinOutput::join_steps"), ("steps", "lemma_join_comma"), ("steps", "lemma_count_take_step"), ("builder", "ActionExprChainBuilder::build_from_parse_stream"), ("gen", "JoinOutput::branch_result_name"), ("gen", "JoinOutput::branch_result_pat")],
-    "C15": [("gen", "lemma_split_balance"), ("gen", "lemma_accepted_chain_never_underflows"), ("gen", "JoinOutput::split_branch_steps"), ("gen", "JoinOutput::generate_step_branch"), ("parse", "parse_until_suffix"), ("builder", "ActionExprChainBuilder::build_from_parse_stream"), ("builder", "ActionExprChain::append_member"),
+    "C15": [("steps", "JoinOutput::generate_steps"), ("gen", "lemma_split_balance"), ("gen", "lemma_accepted_chain_never_underflows"), ("gen", "JoinOutput::split_branch_steps"), ("gen", "JoinOutput::generate_step_branch"), ("parse", "parse_until_suffix"), ("builder", "ActionExprChainBuilder::build_from_parse_stream"), ("builder", "ActionExprChain::append_member"),
             ("builder", "lemma_append_facts"), ("builder", "lemma_balanced_depth"),
             ("gen", "JoinOutput::wrap_last_step_stream"), ("gen", "JoinOutput::process_step_action_expr"),
             ("gen", "JoinOutput::generate_def_and_step_streams"), ("gen", "JoinOutput::expand_process_expr"),
